@@ -32,7 +32,7 @@ ASSUMPTIONS = [
     "two functional models per case",
 ]
 BUDGET = {
-    "quick": dict(examples=200, shards=16, seconds=200),
+    "quick": dict(examples=600, shards=16, seconds=200),
     "thorough": dict(examples=4000, shards=16, seconds=2400),
 }
 ESSENTIAL_LABELS = {t: ["answered", "rule2-evaluated", "rule2-applied", "rejected-impossible-condition", "quotient"] for t in ("quick", "thorough")}
